@@ -97,6 +97,14 @@ func genC13Conc(r *rand.Rand) *Scenario {
 		be.Clients[0] = append(be.Clients[0], BEOp{Kind: "dump"})
 	}
 
+	if chance(r, 0.7) {
+		// further goroutines dump at the same time (several exports of one cache), each starting somewhere
+		// during the first one (a walk over the shards takes a few hundred steps, the clock ticks once per step)
+		for d := 1 + r.IntN(3); d > 0; d-- {
+			be.Clients = append(be.Clients, []BEOp{{Kind: "sleep", SleepNs: int64(r.IntN(700)) * sc.TickNs}, {Kind: "dump"}})
+		}
+	}
+
 	nw := 1 + r.IntN(3)
 	for c := 0; c < nw; c++ {
 		var ops []BEOp
